@@ -8,3 +8,36 @@ type ClassNode struct {
 }
 
 var ClassInheritanceMap = make(map[ClassNode][]ClassNode)
+
+// IsInheritanceCycle reports whether making parent an ancestor of class would
+// close a cycle (parent is class itself or already descends from it). Such an
+// edge must not be added: every ancestor walk would recurse forever.
+func IsInheritanceCycle(class ClassNode, parent ClassNode) bool {
+	visited := make(map[[2]string]bool)
+
+	var reaches func(node ClassNode) bool
+
+	reaches = func(node ClassNode) bool {
+		key := [2]string{node.Frame, node.Class}
+
+		if key == [2]string{class.Frame, class.Class} {
+			return true
+		}
+
+		if visited[key] {
+			return false
+		}
+
+		visited[key] = true
+
+		for _, next := range ClassInheritanceMap[ClassNode{Frame: node.Frame, Class: node.Class}] {
+			if reaches(next) {
+				return true
+			}
+		}
+
+		return false
+	}
+
+	return reaches(parent)
+}
